@@ -162,6 +162,25 @@ def run(ctx):
                 res.violations.append(vlib.Violation(
                     "the table renders %s with the wrong prefix system or numeral" % sym, {"request": req, "value": v[idx]},
                     expected=want, observed=got))
+    # the rendering is a function of the value alone: the same numerals and the same table under any locale
+    import scanprops as SP
+    sample = [r[0] for r in reqs[::max(1, len(reqs) // 400)]] + treqs[:4]
+    base = vlib.batch(ctx["bins"]["api"], sample)
+    nenv = 0
+    for ev in SP.ENV_VARIANTS:
+        got = vlib.batch(ctx["bins"]["api"], sample, env=ev)
+        nenv += 1
+        res.case(("env", tuple(sorted((k, str(v)) for k, v in ev.items()))), True)
+        bad = [(q, b, g) for q, b, g in zip(sample, base, got) if b != g][:1]
+        if bad:
+            q, b, g = bad[0]
+            if q.startswith("table"):
+                b, g = [bytes.fromhex(dict(p.split(":", 1) for p in x.split() if ":" in p)["T"]).decode("utf-8", "replace") for x in (b, g)]
+                dl = [(x, y) for x, y in zip(b.split("\n"), g.split("\n")) if x != y][:1]
+                b, g = dl[0] if dl else (b[:200], g[:200])
+            res.violations.append(vlib.Violation("the rendering of a number depends on the environment of the run",
+                                                 {"request": q[:200], "environment": ev}, expected=b, observed=g))
+    res.coverage_extra["environment_variant_runs"] = nenv
     res.coverage_extra["input_distribution"] = dict(kinds, values=len(vs))
     res.assumptions = ["fmt %.Nf and float64 division are modelled as correctly rounded (IEEE 754, ties to even)"]
     return res
